@@ -23,6 +23,9 @@ type MultiPassReader struct {
 	rs          io.ReadSeeker
 	passesCount int
 	passesLimit int
+	// OnRewind, if set, is called every time the end of the source is reached and it is
+	// about to be read again from the start. A non nil error is returned from Read instead of rewinding.
+	OnRewind func() error
 }
 
 func (r *MultiPassReader) Read(p []byte) (n int, err error) {
@@ -30,6 +33,11 @@ func (r *MultiPassReader) Read(p []byte) (n int, err error) {
 	if err == io.EOF {
 		r.passesCount++
 		if r.passesLimit <= 0 || r.passesCount < r.passesLimit {
+			if r.OnRewind != nil {
+				if err = r.OnRewind(); err != nil {
+					return
+				}
+			}
 			_, err = r.rs.Seek(0, io.SeekStart)
 		}
 	}
